@@ -8,15 +8,15 @@ sys.path.insert(0, HERE)
 ROOT = os.path.dirname(HERE)
 
 DESC = {
- "C01": ("Trace validation: every sequence returned by the formula-based samplers on systematic + seeded random designs (flat and composed) is replayed step by step through the TLA+ Design specification (MCTrace), whose verdict names the failing clause; the trial count and block arithmetic come from Blocks.tla.", "6/C01"),
- "C02": ("Set equality with the specification: IterateSATGen is exhausted; every returned sequence is validated by MCTrace (soundness) and TLC enumerates ALL behaviours of the Design generator and reports each accepted sequence the implementation did not return (MCEnum, completeness); duplicates are counted.", "6/C02"),
+ "C01": ("Trace validation: every sequence returned by the formula-based samplers on systematic + seeded random designs (flat and composed) is replayed step by step through the TLA+ Design specification (MCTrace), whose verdict names the failing clause; the trial count and block arithmetic come from Blocks.tla. Large designs (9-24 trials): TLC simulates the Design generator, the accepted behaviours and their perturbations are pinned in the compiled formula (is_cnf_still_sat): satisfiable => MCTrace verdict ok.", "6/C01"),
+ "C02": ("Set equality with the specification: IterateSATGen is exhausted; every returned sequence is validated by MCTrace (soundness) and TLC enumerates ALL behaviours of the Design generator and reports each accepted sequence the implementation did not return (MCEnum, completeness); duplicates are counted. Large designs (9-24 trials): behaviours produced by TLC simulation of the same generator must be satisfiable when pinned in the compiled formula.", "6/C02"),
  "C03": ("TLC enumerates the models of the complete compiled formula: DPLL over the trial-sequence variables as a state machine (MCModels over Cnf.tla) and, for every consistent assignment of them, a count of the extensions to the auxiliary variables (must be 1); the models are decoded by the library and checked against Design.tla in both directions (model => valid sequence, valid sequence => model, multiplicity = Mult).", "6/C03"),
  "C05": ("The complete tree of random draws of RandomGen's first candidate is explored with the real sampler and a scripted random source; RandomLoop.tla replays every path (well-formed tree) and judges the accepted leaves: exactly Mult(seq) accepted candidates per valid sequence, equal probability per solution; accepted set = valid set by MCTrace/MCEnum.", "6/C05"),
- "C04": ("Trace validation of RandomGen output (class and instance, several requested counts) against the Design specification.", "6/C04"),
+ "C04": ("Trace validation of RandomGen output (class and instance, several requested counts) against the Design specification, including designs of 9-24 trials.", "6/C04"),
  "C06": ("RandomGen exhausted under a watchdog: set equality with the specification's valid set (MCTrace + MCEnum), distinctness, and the reported solution count for rejection-free single-round designs.", "6/C06"),
  "C07": ("Both samplers exhausted; TLC (MCAgree) compares the two sets and prints every sequence that is in only one of them; independent of the Design specification.", "6/C07"),
  "C08": ("Every design the constructors accept is synthesized with IterateSATGen, RandomGen, CMSGen and UniGen in crash-tolerant worker processes; an exception (or a dying process) is a violation unless documented.", "6/C08"),
- "C09": ("Two phases: exhaust to establish (via MCTrace+MCEnum) how many solutions exist, then request 0, 1, avail-1, avail, avail+5 sequences and compare counts with min(requested, available); distinctness up to the specification's multiplicity Mult (weighted uncrossed levels).", "6/C09"),
+ "C09": ("Two phases: exhaust to establish (via MCTrace+MCEnum; the count proved for one sampler is the count every sampler has to deliver) how many solutions exist, then request 0, 1, avail-1, avail, avail+5 sequences and compare counts with min(requested, available); distinctness up to the specification's multiplicity Mult (weighted uncrossed levels).", "6/C09"),
  "C10": ("Clause lists recorded from combine_cnf_with_requests for every (relation, n, k) up to the bound are judged by TLC: MCGadget enumerates all 2^n assignments and a DPLL counter written in TLA+ (Cnf.tla) decides whether exactly one / no extension to the auxiliary variables exists, against the arithmetic definition of the relation.", "6/C10"),
  "C11": ("Formulas (systematic depth<=1, seeded random depth 2-3 with shared subformulas) are converted by the three real functions; TLC evaluates the formula (Eval) and counts the CNF's extensions for every assignment of the original variables; fresh-variable ranges are checked.", "6/C11"),
  "C13": ("For every parameter tuple up to the bound each unranking function is called on all indices 0..N-1; the recorded results are replayed into the enumerator machine of Combinatorics.tla, where the arrangement sets are defined declaratively: every result is an arrangement, none repeats, none is missing, N equals the cardinality.", "6/C13"),
@@ -34,7 +34,7 @@ DESC = {
  "C20": ("Results of experiments_to_tuples/dicts and the bytes of save_experiments_csv for synthesized and arbitrary experiment lists are judged cell by cell by Output.tla (MCOutput); keys outside the user-declared factors are reported.", "6/C20"),
  "C21": ("Captured stdout of tabulate_experiments is parsed byte-wise in TLA+ and every row compared with Output!Freq and the percentage for many factor / trial selections.", "6/C21"),
  "C22": ("Recording CustomDistributions log every call; Continuous.tla replays them (call order, inputs from same-trial dependencies and windows with NaN rules, resampling, returned columns, constraints); built-in distributions: one value per trial and constraints; discrete part by MCTrace.", "6/C22"),
- "C18": ("TLC generates every construction history over block templates that share factor and constraint objects (BuildGen.tla); the last block of each history is built on the shared objects and judged against Design.tla's meaning of the same block built from fresh objects: exhausted sets of both samplers and mismatch verdicts on TLC-labelled candidates.", "6/C18"),
+ "C18": ("TLC generates every construction history over block templates that share factor objects, constraint objects, the user's constraint list and the constructors' default list (BuildGen.tla); the last block of each history is built on the shared objects and judged against Design.tla's meaning of the same block built from fresh objects: exhausted sets of both samplers and mismatch verdicts on TLC-labelled candidates.", "6/C18"),
  "C29": ("SMGen outcomes: refusal or sequences replayed through MCTrace; the timer/search interleavings are model-checked on a PlusCal specification (SMGenTimer.tla) and every schedule TLC produces is realised with a fake Timer fired from a second thread, the answers compared with the never-firing schedule.", "6/C29"),
  "C16": ("Blocks.tla states the documented trial-count arithmetic (R1-R8); TLC evaluates it for every generated design and the result is compared with trials_per_sample(); the length clause of MCTrace covers returned sequences of three strategies; constructor refusals must agree with the specification.", "6/C16"),
 }
